@@ -94,8 +94,13 @@ def render_case(case, flip: bool = False) -> dict:
     out["doc_again"] = digest(docobj.render()["html"])  # the very same objects rendered a second time
     if case.get("html_root"):
         page = h.Tag("html", h.Tag("head"), h.Tag("body", *[build(x) for x in case["roots"]]))
-        p1 = h.HTMLDocument(page).render()["html"]
-        p2 = h.HTMLDocument(page).render()["html"]
+        page.add_class("no-js")
+        pdoc = h.HTMLDocument(page, **kw)  # one document object, rendered twice
+        p1 = pdoc.render()["html"]
+        p2 = pdoc.render()["html"]
+        p3 = h.HTMLDocument(page, **kw).render()["html"]
+        if p3 != p1:
+            p2 = p3
         out["page"] = digest(p1)
         out["page_again"] = digest(p2)
     out["doc_deps"] = [[x.name, str(x.version)] for x in d["dependencies"]]
